@@ -818,6 +818,26 @@ def generate_error_buffer(seed, tie='prng'):
             'tie': tie, 'seed': seed, 'max_events': 20000, 'profile': 'error_buffer'}
 
 
+def generate_shared_cell(seed, tie='prng'):
+    """Two or three sources that always compete for one shared cell (a group with a single slow machine), each through
+    its own, default-named path to its own sink."""
+    rng = random.Random(core.stable_int('cell', seed))
+    n = rng.choice([2, 2, 3])
+    ct = rng.choice([0.5, 1])
+    items = []
+    for k in range(n):
+        items.append({'id': f'S{k}', 'kind': 'source', 'ct': ct, 'budget': None, 'values': [1], 'qualities': [1]})
+    items.append({'id': 'M', 'kind': rng.choice(['handler', 'processor']), 'up': [], 'ct': ct * rng.choice([1, 1.5, 2]),
+                  'res': None})
+    items.append({'id': 'CELL', 'kind': 'group', 'members': ['M']})
+    for k in range(n):
+        items.append({'id': f'GP{k}', 'kind': 'path', 'group': 'CELL', 'up': [f'S{k}']})
+    for k in range(n):
+        items.append({'id': f'K{k}', 'kind': 'sink', 'up': [f'GP{k}'], 'ct': 0, 'collect': False})
+    return {'resources': {}, 'items': items, 'horizon': [float(rng.choice([20, 30]))], 'script': [], 'tie': tie,
+            'seed': seed, 'max_events': 20000, 'default_names': True, 'profile': 'shared_cell'}
+
+
 def generate_mass_release(i, tie='prng'):
     """Scale: about 1100 parts mature in one buffer at the same instant and leave it in one event."""
     n = [1080, 1150, 1300][i % 3]
